@@ -2,6 +2,7 @@ package messages
 
 import (
 	"fmt"
+	"io/ioutil"
 	"log"
 	"time"
 
@@ -247,6 +248,10 @@ func (t *Ticket) GetPACType(keytab *keytab.Keytab, sname *types.PrincipalName, l
 				key, _, err := keytab.GetEncryptionKey(*sname, t.Realm, t.EncPart.KVNO, t.EncPart.EType)
 				if err != nil {
 					return isPAC, p, NewKRBError(t.SName, t.Realm, errorcode.KRB_AP_ERR_NOKEY, fmt.Sprintf("Could not get key from keytab: %v", err))
+				}
+				if l == nil {
+					// ProcessPACInfoBuffers reports the optional buffers it cannot decode through the logger.
+					l = log.New(ioutil.Discard, "", 0)
 				}
 				err = p.ProcessPACInfoBuffers(key, l)
 				return isPAC, p, err
